@@ -1,0 +1,47 @@
+//go:build verif
+
+// Package verifspec is the ghost API used by the contracts in the
+// verif_contracts.go files.  It is compiled only with the build tag "verif".
+// The verifier (/verif/govc) interprets these functions symbolically; the
+// bodies below are never run by the library.
+package verifspec
+
+// Eq is structural equality: field-wise on structs, observational on
+// Option/Try (payload compared only when present), extensional on functions,
+// element-wise on slices, identity on pointers.
+func Eq(a, b any) bool { panic("verifspec: ghost function") }
+
+// Same is identity (same pointer, same slice header).
+func Same(a, b any) bool { panic("verifspec: ghost function") }
+
+// Forall takes a func(x T, ...) bool literal and states it for all arguments.
+func Forall(f any) bool { panic("verifspec: ghost function") }
+
+// Exists takes a func(x T, ...) bool literal.
+func Exists(f any) bool { panic("verifspec: ghost function") }
+
+// EqT states that both thunks yield Eq values and invoke the same user
+// callbacks, with the same arguments, in the same order (or both panic).
+func EqT(a, b func() any) bool { panic("verifspec: ghost function") }
+
+// Begin / End bracket the call of the function under contract.
+func Begin() {}
+func End()   {}
+
+// NoCalls: the function under contract invoked no user callback.
+func NoCalls() bool { panic("verifspec: ghost function") }
+
+// Calls(n): the function under contract invoked user callbacks exactly n times.
+func Calls(n int) bool { panic("verifspec: ghost function") }
+
+// Panics: the thunk panics.
+func Panics(f func() any) bool { panic("verifspec: ghost function") }
+
+// Fresh: the pointer / slice backing array was allocated by the function under contract.
+func Fresh(a any) bool { panic("verifspec: ghost function") }
+
+// Unchanged: the function under contract wrote to no memory that existed before the call.
+func Unchanged() bool { panic("verifspec: ghost function") }
+
+// Len of a slice value.
+func Len(a any) int { panic("verifspec: ghost function") }
